@@ -1,6 +1,7 @@
 """C15 — fixed-offset zones and their names (shape clauses)."""
 import re
-from ..frontend import kids, walk, qn, qtype, dtype, pos, ancestors, AnalysisBroken
+from ..frontend import kids, walk, qn, qtype, dtype, pos, ancestors, AnalysisBroken, params_of
+from ..absint import AI, Observer, St, Int
 from ..expr import callee, call_args, peel, Keys, Folder
 from ..callgraph import fname
 from ..effects import extern_calls
@@ -98,7 +99,7 @@ def run(ctx):
     for (k, u, f, call) in nul.strchr_sites(ctx, lambda k, u, f: u.name == 'time_zone_fixed.cc'):
         if nul.check_site(ctx, 'C15-nul', k, u, f, call):
             n += 1
-    ctx.minimum('C15-nul', 2)
+    ctx.minimum('C15-nul', 1)     # the two lookups of Parse02d may be folded into one helper
 
     # ---- C15-shape / C15-bound
     u, f = ctx.fn('cctz::FixedOffsetFromName')
@@ -162,9 +163,10 @@ def run(ctx):
                   'FixedOffsetFromName accepts a string on a path where "%s" has not been established: names of '
                   'another shape (or spelling more than 24 hours) are treated as fixed-offset zones' % what,
                   construct='shape:%s' % what)
-    total_ok = bool(now_paths) and all(any(op == '<=' and b == 'n:86400' or op == '<' and b == 'n:86401' for (op, a, b) in fs) for fs in now_paths)
-    ctx.check(total_ok, 'C15-shape', 'accepted name: total of at most 24h (on all %d accepting paths)' % len(now_paths), acc[0].ast,
-              'FixedOffsetFromName accepts a name whose total has not been bounded by 24 hours on arrival at the accepting return',
+    vals = accepted_offsets(ctx)
+    total_ok = bool(vals) and all(-86400 <= v.lo and v.hi <= 86400 for (_, v) in vals)
+    ctx.check(total_ok, 'C15-shape', 'accepted name: total of at most 24h (every offset handed back lies in [-86400, 86400])', acc[0].ast,
+              'FixedOffsetFromName can hand back an offset beyond 24 hours: %s' % ', '.join(str(v) for (_, v) in vals),
               construct='shape:total')
     ctx.minimum('C15-shape', 9)
 
@@ -180,55 +182,90 @@ def run(ctx):
     _check_buf(ctx, u2, f2, plen)
 
 
+def _duration_unit(u, t):
+    """Seconds per tick of a std::chrono::duration type (None when not a whole number of seconds)."""
+    t = u.expand_type(t or '')
+    m = re.search(r'duration<[^,<>]+(?:,\s*(?:std::)?ratio<\s*(\d+)(?:\s*,\s*(\d+))?\s*>)?\s*>', t)
+    if not m:
+        return None
+    if m.group(1) is None:
+        return 1
+    n, d = int(m.group(1)), int(m.group(2) or 1)
+    return n // d if d and n % d == 0 else None
+
+
+class _OffsetObs(Observer):
+    def __init__(self):
+        self.vals = []
+
+    def construct(self, ai, site, cls, argvals, st):
+        if 'duration' in cls and argvals and isinstance(argvals[-1], Int):
+            self.vals.append((site, argvals[-1]))
+
+
+def accepted_offsets(ctx):
+    """Hull of the second counts FixedOffsetFromName can hand to its caller, by abstract interpretation
+    of the function (helpers inlined): every duration it constructs from a computed value."""
+    G = ctx.G
+    k = G.one('cctz::FixedOffsetFromName')
+    u, f = G.defs[k]
+    obs = _OffsetObs()
+    ai = AI(G, obs)
+    res = ai.analyse(k, St())
+    if not res or not any(isinstance(v, Int) and v.hi >= 1 for (v, s) in res):
+        raise AnalysisBroken('FixedOffsetFromName could not be analysed')
+    vals = [(site, v) for (site, v) in obs.vals if any(a is f for a in ancestors(site))]
+    return vals
+
+
 def check_bounds(ctx, rule, exact=True):
     """The 24h limit of FixedOffsetFromName and of FixedOffsetToName agree on both sides of zero."""
     u, f = ctx.fn('cctz::FixedOffsetFromName')
-    F = ctx.facts(f)
-    g = ctx.cfg(f)
-    keys = F.keys
-    accept = [rn for rn in g.returns if keys.key(kids(rn.ast)[0]) == 'n:1']
-    acc = [rn for rn in accept if any(op == '!=' and 's:"UTC' in a + b for (op, a, b) in F.facts_at(rn))]
-    if len(acc) != 1:
-        raise AnalysisBroken('%s: expected one non-literal accepting return, found %d' % (rule, len(acc)))
-    now_paths = F.path_facts(acc)
     u2, f2 = ctx.fn('cctz::FixedOffsetToName')
     F2 = ctx.facts(f2)
     g2 = ctx.cfg(f2)
+    pk = '%s#%s' % (params_of(f2)[0]['name'], params_of(f2)[0]['id'])
+    unit_of = {}
+    for x in walk(f2):
+        if x.get('kind') == 'CXXOperatorCallExpr' and callee(x) and callee(x)[0] == 'fn' and \
+                callee(x)[1].get('name') in ('operator<', 'operator>', 'operator<=', 'operator>='):
+            args = call_args(x)
+            for (me, other) in ((args[0], args[1]), (args[1], args[0])):
+                if F2.keys.key(me) == pk:
+                    unit_of.setdefault(F2.keys.key(other), set()).add(_duration_unit(u2, dtype(other) or qtype(other)))
     rets = [rn for rn in g2.returns if 's:' not in F2.keys.key(kids(rn.ast)[0])]
     lo = hi = None
     for rn in rets:
         for (op, a, b) in F2.facts_at(rn):
-            if op == '<=' and a.startswith('n:') and 'offset' in b:
-                lo = int(a[2:])
-            if op == '<=' and b.startswith('n:') and 'offset' in a:
-                hi = int(b[2:])
-    unit_secs = 3600
-    ctx.check(lo is not None and hi is not None and lo == -hi and hi * unit_secs == 86400, rule,
+            for (cst, var, side) in ((a, b, 'lo'), (b, a, 'hi')):
+                if op in ('<=', '<') and cst.startswith('n:') and var == pk and len(unit_of.get(cst, ())) == 1:
+                    unit = list(unit_of[cst])[0]
+                    if unit is None:
+                        continue
+                    v = int(cst[2:]) * unit
+                    if op == '<':
+                        v += 1 if side == 'lo' else -1
+                    if side == 'lo':
+                        lo = v
+                    else:
+                        hi = v
+    ctx.check(lo is not None and hi is not None and lo == -hi and hi == 86400, rule,
               'FixedOffsetToName names offsets in [-24h, +24h] (both ends included)', f2,
               'the range of offsets FixedOffsetToName names is not the symmetric closed range of 24 hours (%s, %s)' % (lo, hi),
-              construct='bound:toname', detail='%s..%s hours' % (lo, hi))
-    mag = None
-    lower = None
-    for fs in now_paths:
-        for (op, a, b) in fs:
-            if op == '<=' and b.startswith('n:') and 'secs' in a:
-                mag = int(b[2:])
-            if op == '<' and b.startswith('n:') and 'secs' in a:
-                mag = int(b[2:]) - 1
-            if op in ('<', '<=') and a.startswith('n:') and 'secs' in b:
-                lower = (op, int(a[2:]))
-    signed = False
-    for x in walk(f):
-        if x.get('kind') == 'BinaryOperator' and x.get('opcode') == '*':
-            ks_ = [keys.key(c) for c in kids(x)]
-            if any(re.search(r'\? n:-1 : n:1\)|\? n:1 : n:-1\)', kk) for kk in ks_) and any('secs' in kk for kk in ks_):
-                signed = True
-    cond = (mag == 86400 and mag == (hi or 0) * unit_secs) if exact else (mag is None or mag >= (hi or 0) * unit_secs)
-    ctx.check(cond and signed and lower is None and hi is not None, rule,
-              'FixedOffsetFromName accepts magnitudes up to the same 24h, sign applied after the bound', acc[0].ast,
-              'the bound of FixedOffsetFromName (upper %s s, extra lower bound %s, sign applied after the check: %s) differs '
-              'from the range FixedOffsetToName produces: some name the library generates is not accepted back, or a name '
-              'beyond 24h is' % (mag, lower, signed), construct='bound:fromname', detail='|secs| <= %s' % mag)
+              construct='bound:toname', detail='%s..%s seconds' % (lo, hi))
+    vals = accepted_offsets(ctx)
+    alo = min([v.lo for (_, v) in vals]) if vals else None
+    ahi = max([v.hi for (_, v) in vals]) if vals else None
+    if exact:
+        cond = vals and alo == -86400 and ahi == 86400 and lo == alo and hi == ahi
+    else:
+        cond = vals and hi is not None and lo is not None and alo <= lo and ahi >= hi
+    ctx.check(bool(cond), rule,
+              'FixedOffsetFromName accepts magnitudes up to the same 24h, sign applied after the bound',
+              vals[0][0] if vals else f,
+              'the offsets FixedOffsetFromName can hand back span [%s, %s] seconds, which differs from the range [%s, %s] '
+              'FixedOffsetToName produces names for: some name the library generates is not accepted back, or a name '
+              'beyond 24h is' % (alo, ahi, lo, hi), construct='bound:fromname', detail='[%s, %s]' % (alo, ahi))
 
 
 def _parse_of(F, key):
@@ -320,64 +357,42 @@ def _abbr(t):
     return {'sign': '+', 'h1': 'h', 'h2': 'h', 'm1': 'm', 'm2': 'm', 's1': 's', 's2': 's', ':a': ':', ':b': ':', 'P': 'P'}.get(t, '?')
 
 
+class _BufObs(Observer):
+    def __init__(self):
+        self.stores = []
+
+    def store(self, ai, e, ptr, extent, st):
+        self.stores.append((e, ptr, extent))
+
+
 def _check_buf(ctx, u, f, plen):
-    """buf[prefix_len + sizeof("-24:00:00")]: forward writes sum to exactly the extent."""
-    fold = Folder(u)
-    K = Keys(u)
+    """char buf[...] of FixedOffsetToName: by abstract interpretation (helpers inlined) every store lands inside
+    the buffer, and the stores cover it exactly from 0 to extent-1 (so the terminator is the last byte)."""
     bufs = [x for x in walk(f) if x.get('kind') == 'VarDecl' and re.search(r'^char\s*\[', dtype(x) or qtype(x))]
     if len(bufs) != 1:
         ctx.bad('C15-buf', 'name buffer', f, 'expected one char buffer, found %d' % len(bufs), construct='buf')
         return
-    m = re.search(r'\[(\d+)\]', dtype(bufs[0]) or qtype(bufs[0]))
-    extent = int(m.group(1)) if m else None
-    if extent is None:
-        # variable-length spelling: fold the size expression
-        for c in kids(bufs[0]):
-            v = fold.fold(c)
-            if v is not None:
-                extent = v
-    g = ctx.cfg(f)
-    # single straight-line region from the buffer declaration to the return: count bytes written
-    written = 0
-    unknown = []
-    started = False
-    for n in g.rpo():
-        if n.kind != 'stmt' or n.ast is None:
-            continue
-        if n.ast is bufs[0]:
-            started = True
-            continue
-        if not started:
-            continue
-        for x in walk(n.ast):
-            if x.get('kind') == 'CallExpr' and callee(x) and callee(x)[0] == 'fn':
-                nm = callee(x)[1].get('name')
-                if nm == 'copy_n':
-                    v = fold.fold(call_args(x)[1])
-                    if v is None:
-                        unknown.append(x)
-                    else:
-                        written += v
-                elif nm == 'Format02d':
-                    written += _format02d_writes(ctx, callee(x)[1])
-            if x.get('kind') == 'UnaryOperator' and x.get('opcode') == '++' and x.get('isPostfix') and \
-                    x.get('_p', {}).get('kind') == 'UnaryOperator' and x['_p'].get('opcode') == '*':
-                written += 1
-    ctx.check(extent is not None and not unknown and written == extent, 'C15-buf',
-              'writes into the %d-byte name buffer sum to %d' % (extent or -1, written), bufs[0],
-              'the bytes written into the name buffer (%d) do not equal its extent (%s): overflow, or an unterminated/'
-              'short name' % (written, extent), construct='buf:toname', detail='prefix + sign + 3x2 digits + 2 colons + NUL')
+    G = ctx.G
+    obs = _BufObs()
+    ai = AI(G, obs)
+    from ..callgraph import fkey
+    res = ai.analyse(fkey(f), St())
+    if not res:
+        raise AnalysisBroken('C15-buf: FixedOffsetToName could not be analysed')
+    mine = [(e, p, ext) for (e, p, ext) in obs.stores if p.target == (bufs[0]['id'],)]
+    other = [(e, p, ext) for (e, p, ext) in obs.stores if p.target is None]
+    extent = mine[0][2] if mine else None
+    covered = set()
+    bad = None
+    for (e, p, ext) in mine:
+        if p.off is None or ext is None or p.off.lo < 0 or p.off.hi >= ext:
+            bad = (e, p)
+        else:
+            covered.update(range(int(p.off.lo), int(p.off.hi) + 1))
+    ok = bool(mine) and bad is None and not other and extent is not None and covered == set(range(extent))
+    ctx.check(ok, 'C15-buf', 'stores into the %s-byte name buffer land at offsets 0..%s, each inside it' % (
+        extent, (max(covered) if covered else '?')), bad[0] if bad else bufs[0],
+        'a store into the name buffer is outside it, at an unknown offset, or the buffer is not filled to its last '
+        'byte (%d stores, covered %d of %s bytes, %d through unknown pointers)' % (len(mine), len(covered), extent, len(other)),
+        construct='buf:toname', detail='prefix + sign + 3x2 digits + 2 colons + NUL')
     ctx.minimum('C15-buf', 1)
-
-
-def _format02d_writes(ctx, d):
-    ks = ctx.G.resolve_decl(d)
-    if len(ks) != 1:
-        return 10 ** 6
-    u, f = ctx.G.defs[ks[0]]
-    n = 0
-    for x in walk(f):
-        if x.get('kind') == 'UnaryOperator' and x.get('opcode') == '++' and x.get('isPostfix') and \
-                x.get('_p', {}).get('kind') == 'UnaryOperator' and x['_p'].get('opcode') == '*':
-            n += 1
-    return n
